@@ -28,6 +28,9 @@ static void setup(Runner &r, const Tier &t) {
         else g_texts.push_back(pick_texts(f.corpus, t.thorough ? 6 : 3, 5, t.thorough ? 12 : 9));
         // a line that ends in marks (exercises reverseSlots' mark handling at a line end)
         if (f.font == "Awami_test.ttf") g_texts.back().push_back("\xd9\xbe\xd8\xb3\xd8\xaa\xd9\x8a\xd9\x94 | \xd8\xba\xd9\x84\xd9\x8a\xd9\x94");
+        // slot-pool edges on the line-end fonts: every c grows by one slot (c > z c), so k = 9, 14, 15 leave exactly one free slot when the two temporary line-end slots are taken
+        // (the second one then comes out of a freshly allocated block)
+        if (f.font.find("_le") != std::string::npos) for (int k : { 9, 14, 15 }) g_texts.back().push_back(std::string(size_t(k), 'c'));
         // very short segments (pool sizes derived from the character count): the first one and two characters of the first text, and a lone space
         { const std::string &t0 = g_texts.back()[0]; size_t p1 = 1; while (p1 < t0.size() && (uint8_t(t0[p1]) & 0xC0) == 0x80) ++p1; size_t p2 = p1 < t0.size() ? p1 + 1 : p1; while (p2 < t0.size() && (uint8_t(t0[p2]) & 0xC0) == 0x80) ++p2;
           std::string one = t0.substr(0, p1), two = t0.substr(0, p2); g_texts.back().push_back(one); if (two != one) g_texts.back().push_back(two); g_texts.back().push_back(" "); }
@@ -51,6 +54,7 @@ static void setup(Runner &r, const Tier &t) {
           for (size_t p = 1; p < n; ++p) { bool cross = false; for (size_t i = 0; i < n && !cross; ++i) { const gr_slot *b = ps[i]; while (gr_slot_attached_to(b)) b = gr_slot_attached_to(b); int bp = pos[b]; if ((i < p) != (size_t(bp) < p)) cross = true; } if (!cross || getenv("C19_ANYBREAK")) bnd.push_back(int(p)); } }
         gr_seg_destroy(probe);
         if (bnd.size() > (g_thor ? 11u : 9u)) bnd.resize(g_thor ? 11 : 9);
+        if (txt.size() >= 9 && txt.find_first_not_of('c') == std::string::npos && bnd.size() > 2) bnd.resize(2);      // pool-edge texts: the unbroken segment and the first two break positions suffice
         uint64_t calls = 0; bool failed = false;
         for (uint32_t mask = 0; mask < (1u << bnd.size()) && !failed; ++mask) {
             if (deadline_hit(ctl)) break;
